@@ -74,6 +74,13 @@ fn perform(g: &Graph, act: &str, comp: &str) {
     }
 }
 
+fn id_str(v: &Value) -> String {
+    match v.as_str() {
+        Some(s) => s.to_string(),
+        None => v.to_string(),
+    }
+}
+
 fn panic_msg(p: Box<dyn std::any::Any + Send>) -> String {
     if let Some(s) = p.downcast_ref::<&str>() {
         s.to_string()
@@ -190,7 +197,7 @@ fn main() {
                 let mut prefix: Vec<usize> = vec![];
                 let mut n: u64 = 0;
                 loop {
-                    let idv = json!(format!("{}.{}", sc["id"], n));
+                    let idv = json!(format!("{}.{}", id_str(&sc["id"]), n));
                     let r = run_once(&sc, Decider::Dfs { prefix: prefix.clone(), pos: 0, trail: vec![] }, &idv);
                     writeln!(out, "{}", r.rec).unwrap();
                     n += 1;
@@ -220,7 +227,7 @@ fn main() {
                 let count = sc["count"].as_u64().unwrap_or(100);
                 let seed = sc["seed"].as_u64().unwrap_or(0);
                 for i in 0..count {
-                    let idv = json!(format!("{}.r{}", sc["id"], i));
+                    let idv = json!(format!("{}.r{}", id_str(&sc["id"]), i));
                     let r = run_once(&sc, Decider::rand(seed.wrapping_mul(1_000_003).wrapping_add(i)), &idv);
                     writeln!(out, "{}", r.rec).unwrap();
                     nruns += 1;
